@@ -71,6 +71,11 @@ def policy(rng, scenario):
     pe = rng.choice([0.0, 0.02, 0.1, 0.3])
     if scenario['sched']['granularity'] == 'instr':
         p = p / 4
+    if rng.random() < 0.25:
+        d = rng.choice([1, 2, 3, 4])
+        return Policy(p_event=pe, pct_depth=d,
+                      pct_len=rng.choice([300, 1500, 4000]),
+                      name='pct(d=%d,pe=%s)' % (d, pe))
     return Policy(p_sched=p, p_event=pe, name='rw(p=%s,pe=%s)' % (p, pe))
 
 
